@@ -18,6 +18,9 @@
 (*                      a rule: vals = << [n, a, b] >>, value number i     *)
 (*                      (from 0) is (a*i + b) mod 256 / mod 65536          *)
 (*   "u8c"              bytes as plain integers 0..255 (long byte values)  *)
+(*   "b64"              a long byte value (more than 256 bytes) named by   *)
+(*                      its RFC 4648 base64 text: vals = << text >>; used  *)
+(*                      only for values that come back from the code       *)
 (* Num == [sp, neg, int, frac]: a decimal number in canonical form:        *)
 (*   sp = "" finite: value = (-1)^neg * int.frac, `int` without leading    *)
 (*   zeros ("0" for zero), `frac` without trailing zeros, zero not neg;    *)
@@ -352,9 +355,10 @@ NormElem(el) ==
   IN IF el.rep = "empty" THEN el
      ELSE IF el.rep = "items" THEN With("items", LAMBDA v : NormJson(v))
      ELSE IF el.vr \in BinVRs THEN
+          IF el.rep = "b64" THEN el ELSE
           LET bytes == BytesOf(el) IN
           IF bytes = <<>> THEN [el EXCEPT !.rep = "empty", !.vals = <<>>]
-          ELSE IF Len(bytes) > 256 THEN [el EXCEPT !.rep = "u8c", !.vals = bytes]
+          ELSE IF Len(bytes) > 256 THEN [el EXCEPT !.rep = "b64", !.vals = <<Base64(bytes)>>]
           ELSE [el EXCEPT !.rep = "u8", !.vals = U8Vals(bytes)]
      ELSE IF el.vr = "AT" THEN el
      ELSE IF el.vr \in TextVRs \cup {"PN"} THEN With("strs", LAMBDA v : StripPad(v))
@@ -374,8 +378,10 @@ AbsElem(el) ==
   IN IF el.rep = "empty" \/ n = 0 THEN Mk("none", <<>>)
      ELSE IF el.rep = "items" THEN Mk("items", Map(LAMBDA v : AbsDs(v)))
      ELSE IF el.rep = "tags" THEN Mk("tags", el.vals)
-     ELSE IF el.rep \in LongReps THEN Mk("bytes", BytesOf(el))
-     ELSE IF el.vr \in BinVRs /\ el.rep \in IntReps \cup FltReps THEN Mk("bytes", BytesOf(el))
+     ELSE IF el.rep = "b64" THEN Mk("b64", el.vals)
+     ELSE IF el.rep \in LongReps \/ (el.vr \in BinVRs /\ el.rep \in IntReps \cup FltReps) THEN
+          (* long byte values are compared through their base64 text (injective) *)
+          LET bytes == BytesOf(el) IN IF Len(bytes) > 256 THEN Mk("b64", <<Base64(bytes)>>) ELSE Mk("bytes", bytes)
      ELSE IF el.rep \in {"str", "strs"} THEN
           IF el.vr \in NumStrVRs \cup NumVRs THEN Mk("num", Map(LAMBDA v : ParseDec(v)))
           (* one value that is blank is a zero-length value *)
